@@ -205,19 +205,29 @@ def bbox_of(cls, m):
     return (min(xs), min(ys), max(xs) - min(xs), max(ys) - min(ys))
 
 
+def _group_path(g):
+    """LayerSpec.group: None | (id, opacity) | ((id, opacity), ...) from the outermost group to the innermost"""
+    if g is None:
+        return ()
+    if g and isinstance(g[0], (tuple, list)):
+        return tuple(tuple(x) for x in g)
+    return (tuple(g),)
+
+
 def svg_document(layers, view_box=(0, 0, 100, 100)):
-    """layers: [LayerSpec] in z-order; consecutive layers with the same non-None group id = (id, opacity) are
-    wrapped in <g opacity>.  Returns SVG text."""
+    """layers: [LayerSpec] in z-order; consecutive layers whose group paths share a prefix sit in the same (nested)
+    <g opacity> elements.  Returns SVG text."""
     defs, body = [], []
     shared = {}
-    open_group = None
+    open_path = ()
     for i, L in enumerate(layers):
-        if L.group != open_group:
-            if open_group is not None:
-                body.append("</g>")
-            if L.group is not None:
-                body.append(f'<g opacity="{L.group[1]:g}">')
-            open_group = L.group
+        path = _group_path(L.group)
+        common = 0
+        while common < min(len(path), len(open_path)) and path[common] == open_path[common]:
+            common += 1
+        body.extend("</g>" for _ in open_path[common:])
+        body.extend(f'<g opacity="{g[1]:g}">' for g in path[common:])
+        open_path = path
         attr, d = fill_markup(L.fill, f"g{i}", bbox_of(L.cls, L.place))
         if d:
             # layers whose gradient definitions are literally equal (same FillSpec in bounding-box units) reference ONE
@@ -230,11 +240,41 @@ def svg_document(layers, view_box=(0, 0, 100, 100)):
                 defs.append(d)
         op = f' opacity="{L.opacity:g}"' if L.opacity != 1 else ""
         body.append(f'<path d="{path_d(L.cls, L.place, jitter=L.jitter)}" fill="{attr}"{op}/>')
-    if open_group is not None:
-        body.append("</g>")
+    body.extend("</g>" for _ in open_path)
     vb = " ".join(f"{v:g}" for v in view_box)
     return (f'<svg xmlns="http://www.w3.org/2000/svg" viewBox="{vb}"><defs>{"".join(defs)}</defs>'
             f'{"".join(body)}</svg>\n')
+
+
+# nested opacity groups: every way a group can end relative to its parent (inner group last / first / in the middle,
+# two and three levels, a sibling or the end of the document after the outer group)
+NESTED_GROUP_SHAPES = {
+    "inner-last-then-sibling": ["A", "AB", "AB", ""],
+    "inner-first": ["AB", "AB", "A", ""],
+    "inner-middle": ["A", "AB", "AB", "A"],
+    "three-levels-then-sibling": ["A", "AB", "ABC", "ABC", ""],
+    "inner-last-at-end": ["", "A", "AB", "AB"],
+    "siblings": ["A", "A", "B", "B"],
+    "nested-then-group": ["A", "AB", "AB", "C", "C"],
+    "inner-pair-of-groups": ["AB", "AB", "AC", "AC", ""],
+}
+
+
+def nested_group_scenario(r, shape_name):
+    """One glyph whose layers sit in nested <g opacity> groups as NESTED_GROUP_SHAPES[shape_name] says (each string is
+    the path of group letters of one layer, outermost first)."""
+    paths = NESTED_GROUP_SHAPES[shape_name]
+    ops = {"A": r.choice([0.6, 0.5]), "B": r.choice([0.4, 0.25]), "C": r.choice([0.8, 0.7])}
+    colours = ["#E53935", "#1E88E5", "#43A047", "#FDD835", "#8E24AA"]
+    r.shuffle(colours)
+    layers = []
+    for i, pth in enumerate(paths):
+        cls = r.choice(["F", "T", "bar", "sq"])
+        cell = r.uniform(5, 8)
+        m = (cell, 0, 0, cell, 12 + 14 * i + r.uniform(-2, 2), 15 + 11 * i + r.uniform(-2, 2))
+        grp = tuple((f"{shape_name}-{pth[:k + 1]}", ops[pth[k]]) for k in range(len(pth))) or None
+        layers.append(LayerSpec(cls, m, FillSpec("solid", color=colours[i % len(colours)], index=None), r.choice([1, 1, 0.5]), grp))
+    return [(CODEPOINTS[0], (0, 0, 100, 100), layers)]
 
 
 CODEPOINTS = [(0x1F600,), (0x1F601,), (0x1F468, 0x200D, 0x1F469), (0x1F602,), (0x2764, 0xFE0F), (0x1F1E6, 0x1F1E7)]
